@@ -52,6 +52,17 @@ class AllowedList(Sym):
 REQ = z3.Function("reaction_eq", z3.IntSort(), z3.IntSort(), z3.BoolSort())
 
 
+class FoldedSpecies(Sym):
+    """all reactant / product species of the reactions of a list of any length (see NetCtx.comprehension_rule); only set() is defined"""
+
+    def __init__(self, which, arr, length):
+        self.which, self.arr, self.length = which, arr, length
+
+    def vf_as_set(self, interp):
+        F = RSET if self.which == "reactants" else PSET
+        return SSet("Species", F(self.arr, self.length))
+
+
 class NetCtx(VerifContext):
     def __init__(self, props=()):
         super().__init__(props)
@@ -103,6 +114,27 @@ class NetCtx(VerifContext):
 
     def length_bound(self, interp, n):
         return None
+
+    def comprehension_rule(self, interp, e, env, kind):
+        """`sp for r in <list of reactions of any length> for sp in r.reactants` (or .products): the collection of all reactant
+        (product) species of the listed reactions.  Turned into a set it is RSET(L, |L|) / PSET(L, |L|) - this IS the recursive
+        definition of the spec functions (union over the list of the classes of each member), so the rule adds no assumption
+        beyond set(a ++ b) == set(a) U set(b).  Any other shape (a filter, another attribute, another element expression)
+        falls through to the generic comprehension code."""
+        import ast
+        gens = e.generators
+        if len(gens) != 2 or gens[0].ifs or gens[1].ifs or isinstance(e, ast.DictComp):
+            return None
+        g0, g1 = gens
+        if not (isinstance(g0.target, ast.Name) and isinstance(g1.target, ast.Name) and isinstance(e.elt, ast.Name) and e.elt.id == g1.target.id):
+            return None
+        if not (isinstance(g1.iter, ast.Attribute) and isinstance(g1.iter.value, ast.Name) and g1.iter.value.id == g0.target.id
+                and g1.iter.attr in ("reactants", "products")):
+            return None
+        outer = interp.eval(g0.iter, env)
+        if not (isinstance(outer, SList) and isinstance(outer.codec, ObjCodec) and outer.codec.cls == "Reaction" and len(outer.arrays) == 1):
+            return None
+        return FoldedSpecies(g1.iter.attr, outer.arrays[0], outer.length)
 
     def prefer_flist(self, interp, e, env, view):
         from pyvc.loops import MAX_FORK_LEN
@@ -206,6 +238,57 @@ def entry_source_sink(it):
     it.prove(z3.And(net._reactants.arr == R0, net._products.arr == P0), "source-sink/frame-caches-unchanged", P)
 
 
+def entry_remove(it):
+    """Network.remove_reaction.  Paths: (0) an integer position k of any sign into a list of any length; (1) an argument of
+    another type.  ensures (0): out of range raises IndexError and changes nothing; otherwise the held list is the old one without
+    position k (order kept), the skipped list is untouched, and wf(new): both caches are the unions over the list that is LEFT.
+    (1): TypeError, nothing changed.  The list-valued and instance-valued arguments (filter comprehensions) are bounded only."""
+    from naunet.network import Network
+    from pyvc.interp import PyRaise
+    P = ("C14",)
+    L0 = z3.Const("L0", ArrI)
+    nL, nSk = z3.Ints("len_L len_Sk")
+    Sk0 = z3.Const("Sk0", ArrI)
+    R0, P0 = z3.Const("R0", SetS), z3.Const("P0", SetS)
+    it.assume(nL >= 0)
+    it.assume(nSk >= 0)
+    it.assume(R0 == RSET(L0, nL))
+    it.assume(P0 == PSET(L0, nL))
+    net = Network.__new__(Network)
+    net.reaction_list = SList(ObjCodec("Reaction"), (L0,), nL)
+    net._skipped_reactions = SList(ObjCodec("Reaction"), (Sk0,), nSk)
+    net._reactants, net._products = SSet("Species", R0), SSet("Species", P0)
+    which = it.choose(2, "argument")
+    k0 = z3.Int("k")
+    arg = SInt(k0) if which == 0 else 1.5
+    raised = None
+    try:
+        it.call_function(Network.remove_reaction, [net, arg], {})
+    except PyRaise as e:
+        raised = e.exc
+    Lf, Skf = net.reaction_list, net._skipped_reactions
+    unchanged = z3.And(Lf.length == nL, Lf.arrays[0] == L0, net._reactants.arr == R0, net._products.arr == P0)
+    it.prove(z3.And(Skf.length == nSk, Skf.arrays[0] == Sk0), "remove/skipped-list-untouched", P)
+    if which == 1:
+        it.prove(z3.BoolVal(isinstance(raised, TypeError)), "remove/other-argument-types-are-refused", P, detail=f"{raised!r}")
+        it.prove(unchanged, "remove/refusal-changes-nothing", P)
+        return
+    k = z3.If(k0 < 0, k0 + nL, k0)
+    inrange = z3.And(k >= 0, k < nL)
+    if raised is not None:
+        it.prove(z3.And(z3.BoolVal(isinstance(raised, IndexError)), z3.Not(inrange)), "remove/raises-only-out-of-range", P, detail=f"{raised!r}")
+        it.prove(unchanged, "remove/refusal-changes-nothing", P)
+        return
+    j = z3.Int("j")
+    A = Lf.arrays[0]
+    it.prove(inrange, "remove/out-of-range-position-is-refused", P)
+    it.prove(Lf.length == nL - 1, "remove/one-reaction-fewer", P)
+    it.prove(z3.ForAll([j], z3.Implies(z3.And(0 <= j, j < nL - 1), z3.Select(A, j) == z3.If(j < k, z3.Select(L0, j), z3.Select(L0, j + 1)))),
+             "remove/held-list-is-the-old-one-without-position-k", P)
+    it.prove(net._reactants.arr == RSET(A, Lf.length), "remove/wf-reactant-cache-follows-the-remaining-reactions", P)
+    it.prove(net._products.arr == PSET(A, Lf.length), "remove/wf-product-cache-follows-the-remaining-reactions", P)
+
+
 def lemma_items(tier):
     """frame lemma by induction on n:  n <= k  =>  RSET(Store(L, k, x), n) == RSET(L, n)   (same for PSET)"""
     import time
@@ -230,6 +313,7 @@ def _register():
     from pyvc.units import Unit, register
     from naunet.network import Network
     register(Unit("network_add_reaction", __name__, make_ctx, entry_add, functions=[Network._add_reaction], props=("C14",)))
+    register(Unit("network_remove_reaction", __name__, make_ctx, entry_remove, functions=[Network.remove_reaction], props=("C14",)))
     register(Unit("network_find_source_sink", __name__, make_ctx, entry_source_sink, functions=[Network.find_source_sink], props=("C14",)))
 
 
